@@ -294,6 +294,17 @@ def signed_and_formats(bwmax=9):
                 if s2 != s:
                     return dict(failed=True, case=dict(fn='format roundtrip(str)', s=s, format=fmt),
                                 observed=s2, expected=s)
+            # the unsigned / hex / binary formats do not depend on the declared width (docstring: (10, 'x3') <-> 'a'):
+            # strings denoting values beyond it round-trip as well
+            for f, render in (('u', str), ('x', lambda x: format(x, 'x')), ('b', lambda x: format(x, 'b'))):
+                big = v + (1 << bw) * (1 + (v % 3))
+                fmt = '%s%d' % (f, bw)
+                n += 1
+                st, val = _try(lambda: pyrtl.formatted_str_to_val(render(big), fmt))
+                st2, s2 = _try(lambda: pyrtl.val_to_formatted_str(val, fmt)) if st == 'ok' else (st, None)
+                if st != 'ok' or val != big or st2 != 'ok' or s2 != render(big):
+                    return dict(failed=True, case=dict(fn='format roundtrip beyond the declared width', s=render(big), format=fmt),
+                                observed=dict(value=[st, val], back=[st2, s2]), expected=dict(value=big, back=render(big)))
             sv = v - (1 << bw) if v >= (1 << (bw - 1)) else v
             if pyrtl.val_to_formatted_str(v, 's%d' % bw) != str(sv):
                 return dict(failed=True, case=dict(fn='val_to_formatted_str', v=v, format='s%d' % bw),
@@ -306,6 +317,7 @@ def signed_and_formats(bwmax=9):
         A = 0
         B = 1
         C = 5
+        D = 12          # beyond the 3 declared bits, like SUB = 12 in the docstring of val_to_formatted_str
 
     class Other(enum.IntEnum):
         X = 0
